@@ -73,6 +73,17 @@ class Types:
         self._in_local = set()
         self._oxidx = None
         self._roots = {}
+        self.hints = {}
+        try:
+            import json
+            import os
+
+            from .report import VERIF
+
+            with open(os.path.join(VERIF, "hints.json")) as fh:
+                self.hints = json.load(fh).get("types", {})
+        except Exception:  # noqa: BLE001
+            self.hints = {}
         self.fallback_used = {}
         self.length_cls = None
         u = prog.modules.get("pptx.util")
@@ -466,8 +477,23 @@ class Types:
         out = EMPTY
         try:
             for k in self.prog.mro(c):
+                h = self.hints.get("%s.%s" % (k.name, name))
+                if h:
+                    for spec in h["types"]:
+                        mod, _, cn = spec.partition(":")
+                        m = self.prog.modules.get(mod)
+                        if m is not None and cn in m.classes:
+                            out |= inst(m.classes[cn])
                 if name in k.annotations:
                     out |= self.ann(k.annotations[name], k.module, c)
+                # element types of list-valued fields: self.<name>.append(x)
+                for f in list(k.methods.values()) + list(k.setters.values()):
+                    for n in ast.walk(f.node):
+                        if isinstance(n, ast.Call) and isinstance(n.func, ast.Attribute) and n.func.attr in ("append", "add") \
+                                and dotted(n.func.value) == "self." + name and n.args:
+                            et = self.expr(n.args[0], FCtx(f, c))
+                            if et:
+                                out |= lst(et)
                 for f in list(k.methods.values()) + list(k.setters.values()):
                     for n in ast.walk(f.node):
                         tgt = None
@@ -806,6 +832,12 @@ class Types:
             return LXML
         if fn in ("qn",):
             return STR
+        if isinstance(e.func, ast.Attribute) and e.func.attr == "__getitem__":
+            return self.elem_of(self.expr(e.func.value, fc, module))
+        if isinstance(e.func, ast.Attribute) and e.func.attr == "__len__":
+            return INT
+        if isinstance(e.func, ast.Attribute) and e.func.attr == "__iter__":
+            return lst(self.elem_of(self.expr(e.func.value, fc, module)))
         if isinstance(e.func, ast.Attribute):
             meth = e.func.attr
             recv = e.func.value
